@@ -45,7 +45,10 @@ def worker_init():
     hooksim.worker_init()
     from .. import ipysim
 
-    ipysim.shell()  # created once per worker, before chunk children are forked (no threads: history is off)
+    try:
+        ipysim.shell()  # created once per worker, before chunk children are forked (no threads: history is off)
+    except ImportError:  # no IPython in this environment: notebook histories are skipped and counted
+        pass
 
 
 def gen_notebook(seed, r, forest):
@@ -137,6 +140,12 @@ def execute_notebook(scn):
     from .. import ipysim
 
     stats = Stats()
+    try:
+        import IPython  # noqa: F401
+    except ImportError:
+        stats.inc("runs")
+        stats.inc("notebook_histories_skipped_no_ipython")
+        return {"violations": [], "stats": stats.c, "features": [], "digest": digest(["skipped"]), "sample": {}}
     probs, obs = ipysim.run_notebook(scn, stats)
     stats.inc("runs")
     stats.inc("notebook_histories")
